@@ -2,6 +2,7 @@
   C09 — Receiver link credit: accurate accounting, enforcement and replenishment.
 -/
 import Amqp.RecvCredit
+import Amqp.Cancel
 import Theorems.Lemmas.U32
 
 namespace Amqp.RecvCredit
@@ -334,5 +335,13 @@ example : flowsOf (run (attached 4294967295 (.auto 2))
     [.setCredit 2, .arrive false false, .recv, .dispose 1, .arrive true false, .arrive false false,
      .inFlow (some 1) true, .recv]).2
     = [(4294967295, 2), (0, 2), (0, 2)] := by decide
+
+/-- **topup_owed_until_queued.** generated obligation: in `update_credit_if_auto` the counter of
+    processed deliveries is reset only after the top-up flow has been handed to the session
+    (`send_flow(..).await` comes first).  A disposal or `recv` future that is dropped while that flow
+    waits for room therefore leaves the top-up owed and the next call issues it; with the reset
+    first the owed credit would be forgotten and a sender that respects credit would stall
+    (`no_stall` assumes every owed top-up is eventually issued). -/
+theorem topup_owed_until_queued : Amqp.Cancel.topupResetLast = true := by decide
 
 end Amqp.RecvCredit
